@@ -7,7 +7,7 @@ from .. import namecorpus, runner, rustgen
 
 def generate(tier, rng):
     derives = ['Display', 'AsRefStr', 'IntoStaticStr', 'VariantNames']
-    enums = namecorpus.build_enums(rng, tier, 'C03', derives, ['names'], generics_pool=('', 'ty', '', 'lt', 'const'),
+    enums = namecorpus.build_enums(rng, tier, 'C03', derives, ['names', 'vnames'], generics_pool=('', 'ty', '', 'lt', 'const'),
                                    namings=namecorpus.NAMINGS + namecorpus.TIE_NAMINGS)
     c = Corpus()
     for e in enums:
@@ -18,6 +18,7 @@ def generate(tier, rng):
         t.name = e.name + 'T'
         t.derives = ['ToString', 'AsStaticStr']
         t.cis = False
+        t.feats = ['names']
         t.extra = dict(e.extra, enum_attrs=['#[allow(deprecated)]'])
         c.add(t)
         for x in (e, t):
